@@ -35,11 +35,11 @@ theorem src_one_class_each (c : OutputFile) :
 theorem src_message_class (pydantic : Bool) (m : Message) :
     ∃ tail : List Piece, messageClass pydantic m
       = dataclassDecorator pydantic
-        ++ [Piece.lit "class ", Piece.expr "message.py_name" m.py_name, Piece.lit "(betterproto.Message):\n"]
-        ++ optComment "message.comment" m.comment
+        ++ [Piece.lit "class ", Piece.expr "output_file.messages[].py_name" m.py_name, Piece.lit "(betterproto.Message):\n"]
+        ++ optComment "output_file.messages[].comment" m.comment
         ++ m.fields.flatMap (fun f =>
-            [Piece.lit "    ", Piece.expr "field.get_field_string()" f.get_field_string, Piece.lit "\n"]
-            ++ optComment "field.comment" f.comment)
+            [Piece.lit "    ", Piece.expr "output_file.messages[].fields[].get_field_string()" f.get_field_string, Piece.lit "\n"]
+            ++ optComment "output_file.messages[].fields[].comment" f.comment)
         ++ (if m.fields = [] then [Piece.lit "    pass\n"] else []) ++ tail := by
   refine ⟨nl ++ postInit m ++ nl ++ oneofValidator pydantic m ++ nl, ?_⟩
   have : passIfEmpty m.fields = (if m.fields = [] then [Piece.lit "    pass\n"] else []) := by
@@ -52,11 +52,11 @@ theorem src_message_class (pydantic : Bool) (m : Message) :
     the entry's number (negative numbers with their sign) -/
 theorem src_enum_class (pydantic : Bool) (e : EnumDef) :
     ∃ tail : List Piece, enumClass pydantic e
-      = [Piece.lit "class ", Piece.expr "enum.py_name" e.py_name, Piece.lit "(betterproto.Enum):\n"]
-        ++ optComment "enum.comment" e.comment
+      = [Piece.lit "class ", Piece.expr "output_file.enums[].py_name" e.py_name, Piece.lit "(betterproto.Enum):\n"]
+        ++ optComment "output_file.enums[].comment" e.comment
         ++ e.entries.flatMap (fun x =>
-            [Piece.lit "    ", Piece.expr "entry.name" x.name, Piece.lit " = ",
-             Piece.expr "entry.value" (jstrInt x.value), Piece.lit "\n"] ++ optComment "entry.comment" x.comment)
+            [Piece.lit "    ", Piece.expr "output_file.enums[].entries[].name" x.name, Piece.lit " = ",
+             Piece.expr "output_file.enums[].entries[].value" (jstrInt x.value), Piece.lit "\n"] ++ optComment "output_file.enums[].entries[].comment" x.comment)
         ++ tail := by
   refine ⟨nl ++ enumPydanticSchema pydantic ++ nl, ?_⟩
   simp only [enumClass, List.append_eq, List.append_assoc]
@@ -70,10 +70,10 @@ example : String.ofList (jstrInt (-3)) = "-3" ∧ String.ofList (jstrInt 0) = "0
 theorem src_all (c : OutputFile) :
     ∃ before after : List Piece, Src.render_header c
       = before
-        ++ c.enums.flatMap (fun e => [Piece.lit "\"", Piece.expr "enum.py_name" e.py_name, Piece.lit "\","])
-        ++ c.messages.flatMap (fun m => [Piece.lit "\"", Piece.expr "message.py_name" m.py_name, Piece.lit "\","])
-        ++ c.services.flatMap (fun s => [Piece.lit "\"", Piece.expr "service.py_name" s.py_name,
-             Piece.lit "Stub\",\n        \"", Piece.expr "service.py_name" s.py_name, Piece.lit "Base\","])
+        ++ c.enums.flatMap (fun e => [Piece.lit "\"", Piece.expr "output_file.enums[].py_name" e.py_name, Piece.lit "\","])
+        ++ c.messages.flatMap (fun m => [Piece.lit "\"", Piece.expr "output_file.messages[].py_name" m.py_name, Piece.lit "\","])
+        ++ c.services.flatMap (fun s => [Piece.lit "\"", Piece.expr "output_file.services[].py_name" s.py_name,
+             Piece.lit "Stub\",\n        \"", Piece.expr "output_file.services[].py_name" s.py_name, Piece.lit "Base\","])
         ++ Piece.lit ")\n\n" :: after := by
   refine ⟨preamble c, moduleImportLines c.python_module_imports ++ nl ++ dataclassImport c.pydantic_dataclasses ++ nl
     ++ datetimeImport c.datetime_imports ++ typingImportLines c.typing_compiler ++ nl
